@@ -96,7 +96,14 @@ def _is_type_checking(node: ast.If) -> bool:
 
 
 def _has_elif_block(node: ast.If) -> bool:
-    return bool(node.orelse) and len(node.orelse) == 1 and isinstance(node.orelse[0], ast.If)
+    # An `else:` block that consists of a single `if` has the same AST as an `elif`,
+    # but its `if` is indented further than the statement it belongs to.
+    return (
+        bool(node.orelse)
+        and len(node.orelse) == 1
+        and isinstance(node.orelse[0], ast.If)
+        and node.orelse[0].col_offset == node.col_offset
+    )
 
 
 @dataclass(frozen=True)
